@@ -248,11 +248,12 @@ func EncodeType(primary string, types Types) (string, error) {
 	if !ok {
 		return "", fmt.Errorf("type %q is not defined", primary)
 	}
-	s := encodeOne(primary, ms)
+	var sb strings.Builder
+	sb.WriteString(encodeOne(primary, ms))
 	for _, d := range Dependencies(primary, types) {
-		s += encodeOne(d, types[d])
+		sb.WriteString(encodeOne(d, types[d]))
 	}
-	return s, nil
+	return sb.String(), nil
 }
 
 // TypeHash is keccak256(encodeType(primary)).
@@ -340,17 +341,44 @@ func encodeAtomic(kind AtomicKind, size int, v Value, path string) ([]byte, erro
 	return nil, fmt.Errorf("%s: not an atomic kind", path)
 }
 
+// hasher carries the type set of one computation and memoises type hashes
+// (a pure function of the type set), so that documents with many struct
+// instances cost one encodeType per struct type instead of one per instance.
+type hasher struct {
+	types Types
+	th    map[string][]byte
+}
+
+func newHasher(types Types) *hasher { return &hasher{types: types, th: map[string][]byte{}} }
+
+func (h *hasher) typeHash(name string) ([]byte, error) {
+	if b, ok := h.th[name]; ok {
+		return b, nil
+	}
+	b, err := TypeHash(name, h.types)
+	if err != nil {
+		return nil, err
+	}
+	h.th[name] = b
+	return b, nil
+}
+
 // EncodeField returns the 32-byte contribution of one value of type t to its
 // parent's encodeData.
 func EncodeField(t string, v Value, types Types, path string) ([]byte, error) {
+	return newHasher(types).encodeField(t, v, path)
+}
+
+func (h *hasher) encodeField(t string, v Value, path string) ([]byte, error) {
 	base, dims, ok := SplitType(t)
 	if !ok {
 		return nil, fmt.Errorf("%s: malformed type %q", path, t)
 	}
-	return encodeDims(base, dims, v, types, path)
+	return h.encodeDims(base, dims, v, path)
 }
 
-func encodeDims(base string, dims []int, v Value, types Types, path string) ([]byte, error) {
+func (h *hasher) encodeDims(base string, dims []int, v Value, path string) ([]byte, error) {
+	types := h.types
 	if len(dims) > 0 {
 		outer := dims[len(dims)-1]
 		arr, ok := v.([]Value)
@@ -362,7 +390,7 @@ func encodeDims(base string, dims []int, v Value, types Types, path string) ([]b
 		}
 		var cat []byte
 		for i, e := range arr {
-			b, err := encodeDims(base, dims[:len(dims)-1], e, types, fmt.Sprintf("%s[%d]", path, i))
+			b, err := h.encodeDims(base, dims[:len(dims)-1], e, fmt.Sprintf("%s[%d]", path, i))
 			if err != nil {
 				return nil, err
 			}
@@ -377,7 +405,7 @@ func encodeDims(base string, dims []int, v Value, types Types, path string) ([]b
 		if m, ok := v.(map[string]Value); ok && m == nil {
 			return make([]byte, 32), nil
 		}
-		return HashStruct(base, v, types, path)
+		return h.hashStruct(base, v, path)
 	}
 	kind, size := Atomic(base)
 	if kind == NotAtomic {
@@ -389,21 +417,25 @@ func encodeDims(base string, dims []int, v Value, types Types, path string) ([]b
 // EncodeData is encodeData of the EIP: typeHash ‖ enc(member 1) ‖ … ‖ enc(member n).
 // Keys of v that are not members of the type are ignored.
 func EncodeData(name string, v Value, types Types, path string) ([]byte, error) {
+	return newHasher(types).encodeData(name, v, path)
+}
+
+func (h *hasher) encodeData(name string, v Value, path string) ([]byte, error) {
 	m, ok := v.(map[string]Value)
 	if !ok || m == nil {
 		return nil, fmt.Errorf("%s: struct value expected for %s, got %T", path, name, v)
 	}
-	th, err := TypeHash(name, types)
+	th, err := h.typeHash(name)
 	if err != nil {
 		return nil, err
 	}
 	out := append([]byte{}, th...)
-	for _, mem := range types[name] {
+	for _, mem := range h.types[name] {
 		p := mem.Name
 		if path != "" {
 			p = path + "." + mem.Name
 		}
-		b, err := EncodeField(mem.Type, m[mem.Name], types, p)
+		b, err := h.encodeField(mem.Type, m[mem.Name], p)
 		if err != nil {
 			return nil, err
 		}
@@ -414,7 +446,11 @@ func EncodeData(name string, v Value, types Types, path string) ([]byte, error) 
 
 // HashStruct is keccak256(encodeData(name, v)).  v must be present.
 func HashStruct(name string, v Value, types Types, path string) ([]byte, error) {
-	enc, err := EncodeData(name, v, types, path)
+	return newHasher(types).hashStruct(name, v, path)
+}
+
+func (h *hasher) hashStruct(name string, v Value, path string) ([]byte, error) {
+	enc, err := h.encodeData(name, v, path)
 	if err != nil {
 		return nil, err
 	}
@@ -459,7 +495,8 @@ func Digest(d *Document) (*Result, error) {
 	if dom == nil {
 		dom = map[string]Value{}
 	}
-	ds, err := HashStruct(DomainType, dom, types, "domain")
+	h := newHasher(types)
+	ds, err := h.hashStruct(DomainType, dom, "domain")
 	if err != nil {
 		return nil, err
 	}
@@ -471,7 +508,7 @@ func Digest(d *Document) (*Result, error) {
 	if d.Message == nil {
 		return nil, fmt.Errorf("message is absent")
 	}
-	mh, err := HashStruct(d.PrimaryType, d.Message, types, "")
+	mh, err := h.hashStruct(d.PrimaryType, d.Message, "")
 	if err != nil {
 		return nil, err
 	}
